@@ -106,6 +106,22 @@ func runC15(c *run.Ctx) {
 			// hand-written looking descriptions: padded with blanks, with a quote inside (the comparison below is ggql with ggql)
 			c.Count("padded_descriptions", gen.PadDescriptions(r, ms))
 		}
+		deepDefault := i%8 == 7
+		if deepDefault {
+			// a default that nests deeper than a query depth limit an application may set (ggql.MaxResolveDepth is a limit
+			// for resolving, the printers walk values of the schema)
+			var dv interface{} = model.NewObjLit().Set("n", int64(1))
+			for k := 0; k < 9+r.Intn(6); k++ {
+				dv = model.NewObjLit().Set("not", dv).Set("any", []interface{}{[]interface{}{int64(int64(k))}})
+			}
+			ms.Types = append(ms.Types, &model.TypeDef{Kind: model.Input, Name: "ZzDeep", Inputs: []*model.ArgDef{{Name: "not", Type: model.Named("ZzDeep")},
+				{Name: "n", Type: model.Named("Int")}, {Name: "any", Type: model.ListOf(model.ListOf(model.Named("Int")))}}})
+			if qt := ms.Type(ms.Query); qt != nil {
+				qt.Fields = append(qt.Fields, &model.FieldDef{Name: "zzDeep", Type: model.Named("Int"), Args: []*model.ArgDef{{Name: "f", Type: model.Named("ZzDeep"), HasDefault: true, Default: dv}}})
+			}
+			ms.Reindex()
+			c.Count("schemas_with_a_default_nested_deeper_than_the_lowered_resolve_depth", 1)
+		}
 		sdl := ms.SDL(model.SDLOpts{BlockDesc: i%3 == 0})
 		nontriv := strings.ContainsAny(sdl, "\\") || strings.Contains(sdl, " @")
 		c.Eval(sdl, nontriv)
@@ -212,6 +228,10 @@ func runC15(c *run.Ctx) {
 			}
 			var p1 string
 			pv, _ := run.Protect(func() {
+				if deepDefault {
+					ggql.MaxResolveDepth = 6
+					defer func() { ggql.MaxResolveDepth = 100 }()
+				}
 				if mode == "root" {
 					p1 = a.SDL(false, true)
 				} else {
